@@ -52,9 +52,48 @@ func classifyRoot(prog *Program, v ssa.Value, seen map[ssa.Value]bool) rootClass
 		return rootClass{"fresh", "cycle"}
 	}
 	seen[v] = true
-	root, _ := rootOf(v)
+	root, chain := rootOf(v)
 	switch x := root.(type) {
 	case *ssa.Alloc:
+		// the local itself is memory of this call; what a slice, pointer or map *loaded from it* refers to is whatever
+		// was put there (a by-value parameter spilled to a local still shares the backing arrays of its slices)
+		loaded := false
+		for _, c := range chain {
+			if c == "*" {
+				loaded = true
+			}
+		}
+		if loaded {
+			if refs := x.Referrers(); refs != nil {
+				for _, u := range *refs {
+					var stored ssa.Value
+					switch y := u.(type) {
+					case *ssa.Store:
+						if y.Addr == ssa.Value(x) {
+							stored = y.Val
+						}
+					case *ssa.FieldAddr, *ssa.IndexAddr:
+						if fr := y.(ssa.Value).Referrers(); fr != nil {
+							for _, fu := range *fr {
+								if st, ok := fu.(*ssa.Store); ok && st.Addr == y.(ssa.Value) {
+									if c := classifyRoot(prog, st.Val, seen); c.class != "fresh" && c.class != "owned-param" {
+										return rootClass{c.class, "held in local " + x.Comment + ": " + c.desc}
+									}
+								}
+							}
+						}
+					}
+					if stored != nil {
+						if _, isConst := stored.(*ssa.Const); isConst {
+							continue
+						}
+						if c := classifyRoot(prog, stored, seen); c.class != "fresh" && c.class != "owned-param" {
+							return rootClass{c.class, "held in local " + x.Comment + ": " + c.desc}
+						}
+					}
+				}
+			}
+		}
 		return rootClass{"fresh", "local " + x.Comment}
 	case *ssa.MakeSlice, *ssa.MakeMap, *ssa.MakeChan, *ssa.MakeClosure:
 		return rootClass{"fresh", "made here"}
